@@ -2,7 +2,8 @@
 import numpy as np
 from hypothesis import strategies as st
 
-from checks.common import S, Raised, call, diameter, get, tol_scale
+from checks import observe
+from checks.common import FORMS, S, Raised, as_form, call, diameter, get, tol_scale
 from gen import zoo
 from harness.runner import Clause
 from oracle import geom
@@ -22,7 +23,8 @@ K = 1e4
 def _case(draw, max_n=24, anchored=False, decades=1.0):
     out = {"mesh": draw(zoo.mesh3d(max_n=max_n)), "place": draw(zoo.placement(max_offset=10.0, scale_decades=decades)),
            "shift": draw(st.integers(0, 7)), "flag": draw(st.sampled_from(["convex", "convex", "default", "not_assumed"])),
-           "fdtype": draw(st.sampled_from(["list", "list", "int64", "int32", "uint8", "uint32", "uint64"]))}
+           "fdtype": draw(st.sampled_from(["list", "list", "int64", "int32", "uint8", "uint32", "uint64"])),
+           "vform": draw(st.sampled_from(FORMS))}
     if anchored:
         out["anchor"] = draw(st.sampled_from(zoo.ANCHORS))
         out["anchor_k"] = draw(st.integers(0, 40))
@@ -56,6 +58,16 @@ def _run(case, rec):
         # the tiny end of the range instead
         pl["logs"] -= 14.0
     V, R, t, s = zoo.apply_placement(pl, V0)
+    vform = case.get("vform", "float64")
+    if vform in ("int64", "int32", "float32") and case["mesh"]["kind"] == "voxel" and not case.get("anchor"):
+        # fixed-width integer / single-precision vertex arrays are only handed over when they hold the values exactly: the
+        # polycube is snapped to eighths (its faces stay axis-aligned planes, distinct planes stay distinct: cells are at
+        # least 0.2 wide) and moved by an integer offset of up to ~1.7e3 instead of being rotated and scaled
+        Q = np.round(np.asarray(V0, dtype=float) * 8.0)
+        td = np.asarray(pl["tdir"], dtype=float)
+        off = np.round(td / np.linalg.norm(td) * pl["tmag"] * 100.0)
+        V = Q + off if vform != "float32" else Q / 8.0 + off
+        t = None
     # cyclic shift of every face's start vertex (a relabelling the class must not care about)
     sh = case["shift"]
     F = [f[sh % len(f):] + f[:sh % len(f)] for f in F]
@@ -91,10 +103,16 @@ def _run(case, rec):
     fd = case.get("fdtype", "list")
     faces_arg = [list(f) for f in F] if fd == "list" else [np.array(f, dtype=getattr(np, fd)) for f in F]
     rec.label("faces_as:" + fd)
-    poly = call(S.Polyhedron, V.copy(), faces_arg, *args)
+    Vin, vform = as_form(V, vform)
+    rec.label("vform:" + vform)
+    poly = call(S.Polyhedron, Vin, faces_arg, *args)
     if isinstance(poly, Raised):
         rec.fail("construct", dict(sig, type=poly.type), msg=poly.msg)
         return
+    if case.get("vform") == "float32" and vform != "float32":
+        # float32 was drawn but the coordinates need double precision: float32-rounded twin (the rounded mesh may have
+        # non-planar faces: then both twins must be refused alike)
+        observe.dtype_twin(rec, S.Polyhedron, V, (faces_arg,) + tuple(args), sig, True)
     ntri = sum(len(f) - 2 for f in F)
     T = tol_scale(V, ntri, K)
     vol = o["volume"]
